@@ -21,7 +21,9 @@ LEAN = os.path.join(VERIF, "lean")
 REPO = os.environ.get("VERIF_REPO", "/repo")
 SRC = os.path.join(REPO, "src")
 DRIVER = os.path.join(LEAN, ".lake", "build", "bin", "driver")
-EVIDENCE = os.path.join(VERIF, "evidence")
+# tools that run the checks against a temporarily modified /repo (try_patch.sh, regress_seeded.py) redirect the evidence, so
+# that /verif/evidence only ever holds runs on the unchanged tree
+EVIDENCE = os.environ.get("VERIF_EVIDENCE_DIR") or os.path.join(VERIF, "evidence")
 REPLAYS = os.path.join(VERIF, "replays")
 ALLOWED_AXIOMS = {"propext", "Classical.choice", "Quot.sound"}
 FORBIDDEN = re.compile(
